@@ -625,6 +625,10 @@ class Interp:
         return [(st, self.opaque_call(st, info, args))]
 
     def inline(self, st, body, args, targs, site):
+        if len(st.stack) > 48 or sum(1 for d, _ in st.stack if d == body['def']) > 2:
+            # recursion (none in this crate today) or runaway nesting: the analysis is incomplete -> fail closed via budget_hit
+            self.budget_hit = True
+            raise PathEnd()
         sub = dict(zip(body.get('generics', []), targs)) if body.get('generics') else {}
         self.inlined[body['def']] = self.inlined.get(body['def'], 0) + 1
         ret_ty = body['locals'][0]['ty']
